@@ -44,6 +44,18 @@ def written_dict(fn: ast.AST) -> Dict[str, ast.AST]:
             continue
         if isinstance(r.value, ast.Name):
             nm = r.value.id
+            arms: Dict[str, ast.AST] = {}
+            for n in ast.walk(fn):
+                # `if c: d["k"] = a` / `else: d["k"] = b`  is  d["k"] = a if c else b
+                if isinstance(n, ast.If) and len(n.body) == 1 and len(n.orelse) == 1:
+                    pair = []
+                    for st in (n.body[0], n.orelse[0]):
+                        if isinstance(st, ast.Assign) and len(st.targets) == 1 and isinstance(st.targets[0], ast.Subscript) \
+                                and isinstance(st.targets[0].value, ast.Name) and st.targets[0].value.id == nm \
+                                and isinstance(st.targets[0].slice, ast.Constant) and isinstance(st.targets[0].slice.value, str):
+                            pair.append((st.targets[0].slice.value, st.value))
+                    if len(pair) == 2 and pair[0][0] == pair[1][0]:
+                        arms[pair[0][0]] = ast.copy_location(ast.IfExp(test=n.test, body=pair[0][1], orelse=pair[1][1]), n)
             for n in ast.walk(fn):
                 if isinstance(n, ast.Assign) and len(n.targets) == 1 and isinstance(n.targets[0], ast.Name) and n.targets[0].id == nm:
                     add(n.value)
@@ -52,6 +64,7 @@ def written_dict(fn: ast.AST) -> Dict[str, ast.AST]:
                 elif isinstance(n, ast.Assign) and len(n.targets) == 1 and isinstance(n.targets[0], ast.Subscript) and isinstance(n.targets[0].value, ast.Name) \
                         and n.targets[0].value.id == nm and isinstance(n.targets[0].slice, ast.Constant) and isinstance(n.targets[0].slice.value, str):
                     out[n.targets[0].slice.value] = n.value
+            out.update(arms)
         else:
             add(r.value)
     return out
@@ -295,6 +308,21 @@ def pydantic_schema(rep: Report, prog: Program) -> None:
             continue
         fi = prog.func(q)
         n += 1
+        # the schema may be built by a module-level helper that is handed the class: `return _plain_validator_schema(cls)`
+        clsnames = {"cls", cname}
+        body_ = [st for st in fi.node.body if not (isinstance(st, ast.Expr) and isinstance(st.value, ast.Constant))]  # type: ignore[attr-defined]
+        if len(body_) == 1 and isinstance(body_[0], ast.Return) and isinstance(body_[0].value, ast.Call) and isinstance(body_[0].value.func, ast.Name) \
+                and body_[0].value.func.id in prog.modules[fi.module].functions:
+            hc = body_[0].value
+            hq = prog.modules[fi.module].functions[hc.func.id]
+            hfi = prog.functions.get(hq)
+            if hfi is not None and not hc.keywords:
+                hp = hfi.params()
+                passed = [hp[i] for i, a in enumerate(hc.args) if i < len(hp) and isinstance(a, ast.Name) and a.id in clsnames]
+                stores = {x.id for x in ast.walk(hfi.node) if isinstance(x, ast.Name) and isinstance(x.ctx, ast.Store)}
+                if passed and not (set(passed) & stores):
+                    clsnames |= set(passed)
+                    fi = hfi
         calls = [c for c in ast.walk(fi.node) if isinstance(c, ast.Call)]
         coercing = [c for c in calls if (c.func.attr if isinstance(c.func, ast.Attribute) else getattr(c.func, "id", "")) in COERCING_SCHEMAS]
         rep.check("R15.13", f"{cname}.__get_pydantic_core_schema__:no-coercing-schema", not coercing,
@@ -324,7 +352,7 @@ def pydantic_schema(rep: Report, prog: Program) -> None:
                 sers.append(deref1(first))
 
         def leads(e: ast.AST) -> bool:
-            if not (isinstance(e, ast.Attribute) and isinstance(e.value, ast.Name) and e.value.id in ("cls", cname)):
+            if not (isinstance(e, ast.Attribute) and isinstance(e.value, ast.Name) and e.value.id in clsnames):
                 return False
             if e.attr == "__from_json__":
                 return True
@@ -652,15 +680,28 @@ def run(rep: Report) -> None:
     # R15.15: a unit's prefix and dimension travel as their own structural encodings.  A name (or symbol) in their place
     # cannot carry an anonymous prefix (Byte's 2**3, Kilo*Hecto) or an unnamed dimension: it decodes as the identity
     ujw = written_dict(prog.func("Unit.__json__").node)
-    local_u = {n.targets[0].id: n.value for n in ast.walk(prog.func("Unit.__json__").node)
-               if isinstance(n, ast.Assign) and len(n.targets) == 1 and isinstance(n.targets[0], ast.Name)}
+    local_u: Dict[str, List[ast.AST]] = {}
+    for n in ast.walk(prog.func("Unit.__json__").node):
+        if isinstance(n, ast.Assign) and len(n.targets) == 1 and isinstance(n.targets[0], ast.Name):
+            local_u.setdefault(n.targets[0].id, []).append(n.value)
+        elif isinstance(n, ast.AnnAssign) and isinstance(n.target, ast.Name) and n.value is not None:
+            local_u.setdefault(n.target.id, []).append(n.value)
+
+    def _alts(e: Optional[ast.AST], depth: int = 0) -> List[Optional[ast.AST]]:
+        """what may be written: every definition of a local, both arms of a conditional expression"""
+        if isinstance(e, ast.Name) and e.id in local_u and depth < 4:
+            return [a for d in local_u[e.id] for a in _alts(d, depth + 1)]
+        if isinstance(e, ast.IfExp):
+            return _alts(e.body, depth + 1) + _alts(e.orelse, depth + 1)
+        return [e]
     for fld in ("prefix", "dimension"):
         v = ujw.get(fld)
-        k_ = 0
-        while isinstance(v, ast.Name) and v.id in local_u and k_ < 4:
-            v = local_u[v.id]
-            k_ += 1
-        structural = v is not None and any(isinstance(c, ast.Call) and isinstance(c.func, ast.Attribute) and c.func.attr == "__json__" for c in ast.walk(v))
+        cands = [a for a in _alts(v) if not (isinstance(a, ast.Constant) and a.value is None)] if v is not None else []
+        structural = bool(cands) and all(a is not None and any(isinstance(c, ast.Call) and isinstance(c.func, ast.Attribute) and c.func.attr == "__json__"
+                                                               for c in ast.walk(a)) for a in cands)
+        if cands:
+            v = next((a for a in cands if a is not None and not any(isinstance(c, ast.Call) and isinstance(c.func, ast.Attribute) and c.func.attr == "__json__"
+                                                                    for c in ast.walk(a))), v)
         rep.check("R15.15", f"Unit.__json__:{fld}", structural,
                   f"Unit.__json__ writes `{ast.unparse(v)[:60] if v is not None else None}` under {fld!r}: not the {fld}'s own __json__() encoding, so a unit whose "
                   f"{fld} has no name (byte carries 2**3; kilo*hecto) comes back with the identity {fld} - another unit", prog.func("Unit.__json__").where(v))
